@@ -1,7 +1,7 @@
 #!/bin/sh
 # tools/seed_round2.sh <Cxx> : confirm the round-2 changes C and D of a property and run the quick check against each
 ID="$1"
-for X in C D; do
+for X in ${ROUND:-C D}; do
   [ -f /tmp/seed/out/$ID/$X.patch.diff ] || { echo "$ID-$X: no patch"; continue; }
   /verif/tools/seed_confirm.sh $ID $X 2>&1 | tail -3
   if [ -d /verif/seeded/$ID-$X ]; then
